@@ -141,6 +141,12 @@ def _c10_monitor(ctx):
             s0 = pd.Timestamp(c["start"])
             c["gw"] = {"water_table": "Y", "method": "Constant", "dates": [c["start"]] + [(s0 + pd.Timedelta(days=d)).strftime("%Y/%m/%d") for d in (40, 90, 150)],
                        "values": [2.5, 0.8, 1.6, 0.6]}
+        if i % 2 == 1:
+            # two observers reported on the same date: an order-dependent container would pick a different one per hash seed
+            c["gw"]["dates"] = c["gw"]["dates"][:2] + [c["gw"]["dates"][1]] + c["gw"]["dates"][2:]
+            c["gw"]["values"] = c["gw"]["values"][:2] + [c["gw"]["values"][1] * 2.0] + c["gw"]["values"][2:]
+            if i % 4 == 3:
+                c["gw"]["method"] = "Variable"
         subcfgs.append(c)
     sub = sim.pmap(monitors2.worker_C10_sub, [{"cfg": c, "seeds": [0, 1, 2, 3, 4242, "random"]} for c in subcfgs], timeout=900)
     res = sim.pmap(monitors2.worker_C10, payloads[:0], timeout=10)
